@@ -113,6 +113,39 @@ Theorem C16_any_interleaving_no_crash :
     exists c, snd (run (empty lim tl) ops) = Ok c.
 Proof. exact interleaving_no_crash. Qed.
 
+(* (7b) the same without assuming that operations are atomic: in the fine-grained model (`cstep`: get = compute the
+   index, then read the entry; set = evict, then remove, then push; any number of threads, micro-steps interleaved
+   arbitrarily; synchronisation only by the readers-writer lock) the completed operations, in completion order, form
+   a sequential history that yields exactly the logged results ... *)
+Theorem C16_concurrent_linearizable :
+  forall (lim tl : N) (c : cache) (ts : nat -> tstate) (log : list logent),
+    creach lim tl (c, ts, log) -> exists cs, seq_exec (empty lim tl) log cs.
+Proof. exact conc_linearizable. Qed.
+
+(* ... whenever no write section is open the shared cache is the state of that sequential history ... *)
+Theorem C16_concurrent_quiescent_state :
+  forall (lim tl : N) (c : cache) (ts : nat -> tstate) (log : list logent),
+    creach lim tl (c, ts, log) -> (forall j, ~ holds_write (ts j)) -> seq_exec (empty lim tl) log c.
+Proof. exact conc_quiescent_state. Qed.
+
+(* ... the sequential history is a `run` (so (1)-(6) apply to it) ... *)
+Theorem C16_seq_exec_is_run :
+  forall (log : list logent) (c c' : cache), seq_exec c log c' -> snd (run c (map fst log)) = Ok c'.
+Proof. exact seq_exec_run. Qed.
+
+(* ... and so every hit observed by any thread in any fine-grained execution is the most recent completed set for
+   that key, and fresh. *)
+Theorem C16_concurrent_get_latest :
+  forall (lim tl : N) (c : cache) (ts : nat -> tstate) (log pre : list logent)
+         (r : list N) (h now : N) (it : item) (post : list logent),
+    creach lim tl (c, ts, log) ->
+    log = pre ++ (OGet r h now, Some (Some it)) :: post ->
+    exists pre1 v m t pre2,
+      map fst pre = pre1 ++ OSet r h v m t :: pre2 /\
+      Forall (fun o => ~ sets_key (r, h) o) pre2 /\
+      it = mkItem r h m t v /\ t <= now /\ now - t <= tl.
+Proof. exact conc_get_latest. Qed.
+
 (* (8) handler level (cache_check + inner_file_handler in static.rs). A request is a read section, then on a
    miss that fits a write section: every request history is a history of atomic cache operations ... *)
 Theorem C16_handler_history_is_cache_history :
@@ -220,6 +253,41 @@ Example C16_example_wrong_variant_breaks_invariant :
                 c_size c2 <> total (c_data c2).
 Proof. eexists. eexists. split; [vm_compute; reflexivity|]. split; [vm_compute; reflexivity|]. vm_compute. discriminate. Qed.
 
+(* a fine-grained execution with three threads: thread 0 stores (four micro-steps), then threads 1 and 2 look up
+   concurrently with their micro-steps interleaved *)
+Ltac c16_nobody_writes := let j := fresh "j" in intro j; unfold upd; repeat (destruct (Nat.eqb j _)); cbn; auto.
+Example C16_example_concurrent_execution :
+  exists c ts log, creach 5 1 (c, ts, log) /\
+    log = [(OSet kA 0 [1;2;3] 3 10, None);
+           (OGet kA 0 11, Some (Some (mkItem kA 0 3 10 [1;2;3])));
+           (OGet kA 1 10, Some None)] /\ ts 1%nat = TIdle /\ ts 2%nat = TIdle.
+Proof.
+  eexists. eexists. eexists. split.
+  - eapply cr_step. eapply cr_step. eapply cr_step. eapply cr_step. eapply cr_step. eapply cr_step.
+    eapply cr_step. eapply cr_step. eapply cr_step. eapply cr_step. apply cr_init.
+    + apply cs_begin_set with (i := 0%nat) (r := kA) (h := 0) (v := [1;2;3]) (m := 3) (now := 10). reflexivity.
+    + eapply cs_set_a with (i := 0%nat); [reflexivity | vm_compute; reflexivity].
+    + eapply cs_set_b with (i := 0%nat); [reflexivity | vm_compute; reflexivity].
+    + eapply cs_set_c with (i := 0%nat). reflexivity.
+    + apply cs_begin_get with (i := 1%nat) (r := kA) (h := 1) (now := 10); [reflexivity | c16_nobody_writes].
+    + apply cs_begin_get with (i := 2%nat) (r := kA) (h := 0) (now := 11); [reflexivity | c16_nobody_writes].
+    + eapply cs_get_a with (i := 1%nat). reflexivity.
+    + eapply cs_get_a with (i := 2%nat). reflexivity.
+    + eapply cs_get_b with (i := 2%nat); [reflexivity | vm_compute; reflexivity].
+    + eapply cs_get_b with (i := 1%nat); [reflexivity | vm_compute; reflexivity].
+  - split; [reflexivity|]. split; reflexivity.
+Qed.
+
+(* why the lock is needed in that model: an index computed before another thread's eviction is out of range after it
+   (`&self.data[index]` would panic) — the write guard's exclusion of readers is what rules this out *)
+Example C16_example_unlocked_get_would_crash :
+  exists c1 c2,
+    snd (run (empty 2 9) [OSet kA 0 [1] 0 5; OSet kB 0 [2] 0 5]) = Ok c1 /\
+    position kB 0 (c_data c1) = Some 1%nat /\            (* a reader computes the index of /b ... *)
+    set c1 [47; 99] 0 [9;9] 0 5 = Ok c2 /\                (* ... a writer stores /c, evicting both entries ... *)
+    get_at c2 (position kB 0 (c_data c1)) 5 = Crash 4.   (* ... and the reader's data[index] is out of range *)
+Proof. eexists. eexists. split; [vm_compute; reflexivity|]. split; [vm_compute; reflexivity|]. split; vm_compute; reflexivity. Qed.
+
 Print Assumptions C16_invariants.
 Print Assumptions C16_retrievable_total_le_limit.
 Print Assumptions C16_get_latest.
@@ -230,6 +298,10 @@ Print Assumptions C16_retrievable_after_set.
 Print Assumptions C16_no_crash.
 Print Assumptions C16_oversized_set_crashes.
 Print Assumptions C16_any_interleaving_no_crash.
+Print Assumptions C16_concurrent_linearizable.
+Print Assumptions C16_concurrent_quiescent_state.
+Print Assumptions C16_seq_exec_is_run.
+Print Assumptions C16_concurrent_get_latest.
 Print Assumptions C16_handler_history_is_cache_history.
 Print Assumptions C16_handler_trace_guarded.
 Print Assumptions C16_handler_no_crash.
@@ -241,3 +313,5 @@ Print Assumptions C16_example_history.
 Print Assumptions C16_example_hypotheses.
 Print Assumptions C16_example_crashes.
 Print Assumptions C16_example_wrong_variant_breaks_invariant.
+Print Assumptions C16_example_concurrent_execution.
+Print Assumptions C16_example_unlocked_get_would_crash.
